@@ -29,6 +29,7 @@ ASSUMPTIONS = [
 
 PROBES = ['$', '@debug $', '$ + 1', '$ 2', '($ 2) 3', '$ to 2 dp', '$ == L$', '(\\q.q) $']
 DEBUG_IDX = 1
+KNOWN_MISSING = {'mean', 'arg', 'floor', 'ceil', 'round'}
 NONTRIVIAL_KINDS = {'number-with-unit', 'number-in-base', 'date', 'dist', 'lambda', 'closure-with-scope', 'builtin',
                     'misc-unit-object-format-base', 'derived', 'number-complex-or-irrational', 'string'}
 
@@ -63,6 +64,12 @@ def check(c):
     c.extra['builtin_literals_written'] = len(as_names)
     c.extra['builtin_literals_not_read_back'] = missing
     builtins = S.builtin_idents(as_names)
+    # a literal that is written but not read back and is not one of the five listed ones is a concrete
+    # failing input by itself (the generated-table obligation C12_builtin_names_except_known names it too)
+    for lit in missing:
+        if lit not in KNOWN_MISSING:
+            c.violation('builtin-literal-not-read-back', {'kind': 'impl-vs-spec', 'literal': lit, 'history': ['v0 = ' + lit],
+                                                           'what': 'BuiltInFunction::as_str writes %r, try_from_str does not accept it' % lit})
 
     r = c.rng
     hist = S.corpus_histories(builtins)
@@ -124,7 +131,8 @@ def check(c):
         classes = []
         if any(e['has_scope'] for e in ents):
             classes.append('scope_flag_inverted')
-        if any(not e['names_ok'] for e in ents):
+        if any(not e['names_ok'] for e in ents) and all(e['names_ok_or_known'] for e in ents):
+            # only literals of the listed finding (mean arg floor ceil round) are involved
             classes.append('builtin_name_missing')
         nontrivial = any(kk in NONTRIVIAL_KINDS for kk in k['kinds']) or any(e['size'] > 1 for e in ents)
         c.note_case(k['key'], nontrivial, None)
